@@ -24,6 +24,10 @@ theorem kenc_inj {cd : KVCodec K V} (hk : KeyRT cd) {k k' : K} {kb : Key}
 structure Rel (cd : KVCodec K V) (mB : Spec.SMap) (mT : K → Option V) : Prop where
   agree : ∀ k kb, cd.kenc k = some kb → mB kb = (mT k).bind cd.venc
   enc : ∀ k v, mT k = some v → (cd.venc v).isSome = true
+  /-- every stored key is the stored form of a key -/
+  img : ∀ kb, mB kb ≠ none → ∃ k, cd.kenc k = some kb
+  /-- every key of the typed map encodes -/
+  kencOk : ∀ k v, mT k = some v → (cd.kenc k).isSome = true
 
 theorem rel_step [DecidableEq K] {cd : KVCodec K V} (hk : KeyRT cd) {mB : Spec.SMap} {mT : K → Option V}
     (h : Rel cd mB mT) (op : TyOp K V) : Rel cd (Spec.apply mB (encOp cd op)) (tapply cd mT op) := by
@@ -51,6 +55,14 @@ theorem rel_step [DecidableEq K] {cd : KVCodec K V} (hk : KeyRT cd) {mB : Spec.S
           by_cases hkk : k' = k
           · simp [hkk] at hm; subst hm; simp [hvb]
           · simp [hkk] at hm; exact h.enc k' v' hm
+        · intro kb' hne
+          by_cases hkb' : kb' = kb0
+          · exact ⟨k, hkb' ▸ hkb⟩
+          · simp [Spec.put, hkb'] at hne; exact h.img kb' hne
+        · intro k' v' hm
+          by_cases hkk : k' = k
+          · subst hkk; simp [hkb]
+          · simp [hkk] at hm; exact h.kencOk k' v' hm
   | del k =>
     cases hkb : cd.kenc k with
     | none => simpa [encOp, hkb, Spec.apply, tapply] using h
@@ -71,6 +83,14 @@ theorem rel_step [DecidableEq K] {cd : KVCodec K V} (hk : KeyRT cd) {mB : Spec.S
         by_cases hkk : k' = k
         · simp [hkk] at hm
         · simp [hkk] at hm; exact h.enc k' v' hm
+      · intro kb' hne
+        by_cases hkb' : kb' = kb0
+        · simp [Spec.remove, hkb'] at hne
+        · simp [Spec.remove, hkb'] at hne; exact h.img kb' hne
+      · intro k' v' hm
+        by_cases hkk : k' = k
+        · simp [hkk] at hm
+        · simp [hkk] at hm; exact h.kencOk k' v' hm
   | get k => simpa [encOp, Spec.apply, tapply] using h
   | has k => simpa [encOp, Spec.apply, tapply] using h
   | size => simpa [encOp, Spec.apply, tapply] using h
@@ -84,10 +104,68 @@ theorem rel_final [DecidableEq K] {cd : KVCodec K V} (hk : KeyRT cd) (ops : List
     Rel cd (Spec.final (ops.map (encOp cd))) (tspec cd ops) := by
   suffices ∀ (mB : Spec.SMap) (mT : K → Option V), Rel cd mB mT →
       Rel cd ((ops.map (encOp cd)).foldl Spec.apply mB) (ops.foldl (tapply cd) mT) from
-    this _ _ ⟨fun _ _ _ => rfl, fun _ _ h => by simp at h⟩
+    this _ _ ⟨fun _ _ _ => rfl, fun _ _ h => by simp at h, fun _ h => absurd rfl h, fun _ _ h => by simp at h⟩
   induction ops with
   | nil => intro mB mT h; exact h
   | cons op ops ih => intro mB mT h; exact ih _ _ (rel_step hk h op)
+
+theorem venc_inj {cd : KVCodec K V} (hv : ValRT cd) {v v' : V} {vb : Val}
+    (h : cd.venc v = some vb) (h' : cd.venc v' = some vb) : v = v' := by
+  have a := hv v vb h
+  have b := hv v' vb h'
+  rw [a] at b
+  exact (Prod.mk.inj (Option.some.inj b)).1
+
+/-- Equal typed maps ⇒ equal stored maps. -/
+theorem stored_eq_of_typed_eq [DecidableEq K] {cd : KVCodec K V} (hk : KeyRT cd) (ops₁ ops₂ : List (TyOp K V))
+    (heq : ∀ k, tspec cd ops₁ k = tspec cd ops₂ k) (kb : Key) :
+    Spec.final (ops₁.map (encOp cd)) kb = Spec.final (ops₂.map (encOp cd)) kb := by
+  have r₁ := rel_final hk ops₁
+  have r₂ := rel_final hk ops₂
+  by_cases hex : ∃ k, cd.kenc k = some kb
+  · obtain ⟨k, hkb⟩ := hex
+    rw [r₁.agree k kb hkb, r₂.agree k kb hkb, heq k]
+  · have n₁ : Spec.final (ops₁.map (encOp cd)) kb = none := by
+      apply Classical.byContradiction; intro hne; exact hex (r₁.img kb hne)
+    have n₂ : Spec.final (ops₂.map (encOp cd)) kb = none := by
+      apply Classical.byContradiction; intro hne; exact hex (r₂.img kb hne)
+    rw [n₁, n₂]
+
+/-- Equal stored maps ⇒ equal typed maps (the value serializer is injective because it round-trips). -/
+theorem typed_eq_of_stored_eq [DecidableEq K] {cd : KVCodec K V} (hk : KeyRT cd) (hv : ValRT cd)
+    (ops₁ ops₂ : List (TyOp K V))
+    (heq : ∀ kb, Spec.final (ops₁.map (encOp cd)) kb = Spec.final (ops₂.map (encOp cd)) kb) (k : K) :
+    tspec cd ops₁ k = tspec cd ops₂ k := by
+  have r₁ := rel_final hk ops₁
+  have r₂ := rel_final hk ops₂
+  cases hkb : cd.kenc k with
+  | none =>
+    have n₁ : tspec cd ops₁ k = none := by
+      cases h : tspec cd ops₁ k with
+      | none => rfl
+      | some v => have := r₁.kencOk k v h; simp [hkb] at this
+    have n₂ : tspec cd ops₂ k = none := by
+      cases h : tspec cd ops₂ k with
+      | none => rfl
+      | some v => have := r₂.kencOk k v h; simp [hkb] at this
+    rw [n₁, n₂]
+  | some kb =>
+    have e := heq kb
+    rw [r₁.agree k kb hkb, r₂.agree k kb hkb] at e
+    cases h₁ : tspec cd ops₁ k with
+    | none =>
+      cases h₂ : tspec cd ops₂ k with
+      | none => rfl
+      | some v₂ =>
+        obtain ⟨vb, hvb⟩ := Option.isSome_iff_exists.mp (r₂.enc k v₂ h₂)
+        simp [h₁, h₂, hvb] at e
+    | some v₁ =>
+      obtain ⟨vb₁, hvb₁⟩ := Option.isSome_iff_exists.mp (r₁.enc k v₁ h₁)
+      cases h₂ : tspec cd ops₂ k with
+      | none => simp [h₁, h₂, hvb₁] at e
+      | some v₂ =>
+        simp only [h₁, h₂, Option.bind_some, hvb₁] at e
+        rw [venc_inj hv hvb₁ e.symm]
 
 theorem tfinal_eq (c : Cfg R) (cd : KVCodec K V) (s : St R) (ops : List (TyOp K V)) :
     tfinal c cd s ops = final { c with dec := cd.dec } s (ops.map (encOp cd)) := by
